@@ -247,7 +247,14 @@ def c19(ctx, api):
                                          cfg(constants={'Emit': 'TRUE', 'Prop': '"C19"', 'Depth': 3 if thorough else 2}),
                                          timeout=3000)
     acc.add('GenLet: let nestings to depth %d x 6 documents' % (3 if thorough else 2), st, summ)
-    return acc.result(RULE_PINNED, extra={'model_checks': ['EnvEqualsSubstitution', 'Parses']})
+    ctx['harness_env'] = {'VERIF_DEEP': '100000'}
+    try:
+        st, summ = api['run_tlc_to_harness'](ctx, 'deep-lets', 'GenCost', cfg(constants={'Emit': 'TRUE', 'Prop': '"C19"'}), timeout=1500,
+                                             harness_args=['-only', 'scale', '-timeout', '120s', '-workers', '8'])
+    finally:
+        ctx['harness_env'] = {}
+    acc.add('let nesting 64 .. 8192 and 100,000 levels deep: shadowing ends with the inner let, chains of re-bindings, no leak to a sibling', st, summ)
+    return acc.result(RULE_PINNED, extra={'model_checks': ['EnvEqualsSubstitution', 'Parses', 'WrappedNestLemma']})
 
 
 # --------------------------------------------------------------------- C02
@@ -316,7 +323,10 @@ def c16(ctx, api):
                                          cfg(constants={'Emit': 'TRUE', 'Prop': '"C16"', 'MaxLen': n}), timeout=3000)
     acc.add("GenLit: all strings of length <= %d over {' \" ` \\ a u LF U+0001 e-acute emoji U+FFFD blank} through raw, JSON and quoted-identifier literals (two escaping styles each) and 11 JSON values" % n,
             st, summ)
-    return acc.result(RULE_PINNED, extra={'model_checks': ['LiteralDecodesToItself', 'DecEncRaw', 'DecEncQuoted', 'DecEncJSON', 'OneToken']})
+    st, summ = api['run_tlc_to_harness'](ctx, 'counts', 'GenCost', cfg(constants={'Emit': 'TRUE', 'Prop': '"C16"'}), timeout=1500,
+                                         harness_args=['-only', 'count', '-timeout', '60s'])
+    acc.add('literals with 255 / 256 / 257 / 65535 / 65536 / 65537 escapes, characters or elements (9 families; expected value = the count)', st, summ)
+    return acc.result(RULE_PINNED, extra={'model_checks': ['LiteralDecodesToItself', 'DecEncRaw', 'DecEncQuoted', 'DecEncJSON', 'OneToken', 'CountLemma']})
 
 
 # --------------------------------------------------------------------- C04
